@@ -1,4 +1,5 @@
 #!/usr/bin/env python3
+# gen-out: OpTable.v
 """Translate BinOpKind::const_eval / UnOpKind::const_eval / handle_shift_rhs
 (src/passes/const_simplify.rs) into Gen/OpTable.v.  usage: optable.py <repo> <out.v>"""
 import sys, re
